@@ -22,9 +22,9 @@ try:
         newh = gate._helper_table(cur, [q for q in cur if q not in reff])
         goneh = gate._helper_table(reff, [q for q in reff if q not in cur])
         print(name, 'new helpers', sorted(newh), 'gone', sorted(goneh))
-        for q, (f, _, _) in cur.items():
+        for q, (f, _, cls_) in cur.items():
             if q in reff and gate._dump(f) != gate._dump(reff[q][0]):
-                c1 = equiv.canonical(f, newh, equiv.module_constants(ct)); c2 = equiv.canonical(reff[q][0], goneh, equiv.module_constants(rt))
+                c1, c2 = gate.canonical_pair(f, cls_, reff[q][0], reff[q][2], newh, goneh, equiv.module_constants(ct), equiv.module_constants(rt))
                 print('  ', q, 'EQUIVALENT' if c1 is not None and c1 == c2 else 'differs')
                 if c1 != c2 and c1 and c2:
                     a = re.split(r"(?<=\)), ", c1); b = re.split(r"(?<=\)), ", c2)
